@@ -50,6 +50,7 @@ class Ob:
     timeout: int = 300
     tiers: tuple = ('quick', 'thorough')
     functions: tuple = ()             # real functions of /repo whose text this obligation verifies
+    must_fail: tuple = ()             # positive control: substrings of CBMC property names/descriptions that MUST be refuted (others must hold)
     static: Optional[Callable] = None # S tier: callable(ctx) -> (ok: bool|None, detail: str)
     native: bool = False              # harness compiles natively with -DVERIF_NATIVE for replay
     native_libs: tuple = ()
@@ -336,6 +337,15 @@ def solve(ctx: Ctx, ob: Ob) -> Result:
         res.wall_s = time.time() - t0
         return res
     st, props, failed, errors, solver, _ = parse_cbmc_json(out)
+    if ob.must_fail and st in ('pass', 'fail'):
+        hit = {m: any(m in a or m in b for (a, b, c, _) in failed) for m in ob.must_fail}
+        rest = [f for f in failed if not any(m in f[0] or m in f[1] for m in ob.must_fail)]
+        if not all(hit.values()):
+            res.props, res.solver_s = props, solver
+            res.status, res.detail = 'error', 'vacuity guard: positive control did not fire - expected a refutation of: ' + ', '.join(m for m, v in hit.items() if not v)
+            res.wall_s = time.time() - t0
+            return res
+        failed, st = rest, ('fail' if rest else 'pass')
     res.props, res.failed, res.solver_s = props, failed, solver
     res.log += out if st != 'pass' else ''
     if st == 'error' or errors and st != 'fail' and props == 0:
